@@ -66,6 +66,7 @@ structure Cfg where
   batch : Nat
   bucket : Nat
   minIonIndex : Nat
+  tmt : Nat            -- 0 = none, else the plex size name (6, 10, 11, 16, 18), MS2 level
 
 structure Spectrum where
   title : List UInt8
@@ -547,6 +548,54 @@ def fragViolation (rows : List Row) (frags : List FragRow) : Option String :=
                     && (f.kind == bytesOfStr "b" || f.kind == bytesOfStr "y"))) with
     | some _ => some "fragment_ordinal_or_kind"
     | none => none
+
+structure TmtRow where
+  filename : List UInt8
+  scannr : List UInt8
+  values : List Nat      -- f32 bits
+
+/-- reporter m/z of the configured plex (tables regenerated from tmt.rs; pinned by Props/Consts) -/
+def plexMasses (tmt : Nat) : List Rat :=
+  if tmt == 6 then Sage.Gen.TMT6PLEX
+  else if tmt == 10 then Sage.Gen.TMT11PLEX.take 10
+  else if tmt == 11 then Sage.Gen.TMT11PLEX
+  else if tmt == 16 then Sage.Gen.TMT18PLEX.take 16
+  else if tmt == 18 then Sage.Gen.TMT18PLEX
+  else []
+
+/-- definitional reporter value: the largest intensity among the spectrum's RAW peaks whose m/z lies
+    within ±20 ppm of the channel (0 when there is none); `none` when a peak sits within 1 ppm of a
+    window edge (guard band: the verdict is then not decided here) -/
+def reporterValue (sp : Spectrum) (label : Rat) : Option Rat :=
+  let lo := label * (1 - 20 / 1000000)
+  let hi := label * (1 + 20 / 1000000)
+  let g := label / 1000000
+  if sp.peaks.any (fun (mz, _) => let m := f32val mz; (absR (m - lo) < g) || (absR (m - hi) < g)) then none else
+  some ((sp.peaks.filter (fun (mz, _) => let m := f32val mz; lo ≤ m && m ≤ hi)).foldl
+    (fun acc (_, i) => if f32val i > acc then f32val i else acc) 0)
+
+/-- `tmt.tsv`: one row per input MS2 spectrum, one value per channel in plex order, each the most
+    intense raw peak within 20 ppm of the channel (MS2-level quantification exempts the reporter
+    region from deisotoping, so raw and processed agree there) -/
+def tmtViolation (run : Run) (rows : List TmtRow) : Option String :=
+  let masses := plexMasses run.cfg.tmt
+  let nspec := (run.files.map (·.length)).sum
+  if rows.length != nspec then some "tmt_row_count" else
+  match rows.find? (fun r =>
+    match (fileIndex r.filename).bind (fun fi => run.files[fi]?) with
+    | none => true
+    | some f =>
+      match f.find? (fun s => s.title == r.scannr) with
+      | none => true
+      | some sp =>
+        r.values.length != masses.length ||
+        (List.range masses.length).any (fun k =>
+          match reporterValue sp (masses.getD k 0), r.values[k]? with
+          | some want, some got => !(f32finite got && f32val got == want)
+          | none, _ => false
+          | _, none => true)) with
+  | some _ => some "tmt_value_ne_most_intense_peak_in_window"
+  | none => none
 
 /-- planted peptides: reported at rank 1 for their spectrum -/
 def plantedViolation (run : Run) (rows : List Row) : Option String :=
